@@ -227,7 +227,17 @@ def validate(ctx, cases, skipped):
             skipped.append(entry)
         else:
             lemmas.append(c)
-    ctx.log(f"{len(lemmas)} lemmas, {n_struct} structure-only")
+    pre_rng = random.Random(ctx.seed + 3)
+    n_pre = 0
+    kept = []
+    for c in lemmas:
+        if rc.precheck(ctx, c, pre_rng):
+            n_pre += 1
+        else:
+            kept.append(c)
+    lemmas = kept
+    ctx.coverage["refuted_numerically_before_coq"] = n_pre
+    ctx.log(f"{len(lemmas)} lemmas, {n_struct} structure-only, {n_pre} refuted numerically")
     res = coqrun.prove_lemmas(ctx, "c17", rc.PREAMBLE, [c["lemma"] for c in lemmas], per_file=40, timeout=900)
     ok = 0
     rng = random.Random(ctx.seed + 1)
